@@ -38,4 +38,42 @@ def run(repo, tier):
                                               observed=obs, input=dict(ion=ion), confirmed=True))
             if len(out['samples']) < 3:
                 out['samples'].append(dict(obligation=nm, verdict='proved' if ok else 'refuted'))
+    # the per-part link between the two calculators (L-CM for the tables): mass() adds the residue MASS tables and the precomputed neutral
+    # ion-type adjustment, _sequence_comp adds the residue COMPOSITION table and the neutral composition adjustment -- each mass entry must
+    # be the mass of the corresponding composition under the library's own atomic tables (exact rational arithmetic, 1e-9)
+    t = dump_globals({'peptacular.constants': ['AA_COMPOSITIONS', 'NEUTRAL_FRAGMENT_COMPOSITION_ADJUSTMENTS', 'ISOTOPIC_ATOMIC_MASSES',
+                                               'AVERAGE_ATOMIC_MASSES'],
+                      'peptacular.chem.chem_constants': ['MONOISOTOPIC_AA_MASSES', 'AVERAGE_AA_MASSES'],
+                      'peptacular.mass_calc': ['MONOISOTOPIC_FRAGMENT_ADJUSTMENTS', 'AVERAGE_FRAGMENT_ADJUSTMENTS']}, repo)
+    ex = lambda x: F(*float(x).as_integer_ratio())
+
+    def cmass(comp, table):
+        return sum((ex(v) * ex(t[table][k]) for k, v in comp.items()), F(0))
+
+    checks = []
+    for aa in sorted(set(t['AA_COMPOSITIONS']) | set(t['MONOISOTOPIC_AA_MASSES']) | set(t['AVERAGE_AA_MASSES'])):
+        for mode, mt, at in (('monoisotopic', 'MONOISOTOPIC_AA_MASSES', 'ISOTOPIC_ATOMIC_MASSES'), ('average', 'AVERAGE_AA_MASSES', 'AVERAGE_ATOMIC_MASSES')):
+            name = f'{mode} mass of residue {aa} == mass of its table composition'
+            if aa not in t['AA_COMPOSITIONS'] or aa not in t[mt]:
+                checks.append((name, False, 'residue in both tables', 'missing in one', dict(residue=aa)))
+                continue
+            want = cmass(t['AA_COMPOSITIONS'][aa], at)
+            checks.append((name, abs(ex(t[mt][aa]) - want) <= F('1e-9'), float(want), t[mt][aa], dict(residue=aa)))
+    for ion in sorted(t['NEUTRAL_FRAGMENT_COMPOSITION_ADJUSTMENTS']):
+        for mode, mt, at in (('monoisotopic', 'MONOISOTOPIC_FRAGMENT_ADJUSTMENTS', 'ISOTOPIC_ATOMIC_MASSES'),
+                             ('average', 'AVERAGE_FRAGMENT_ADJUSTMENTS', 'AVERAGE_ATOMIC_MASSES')):
+            name = f'{mode} neutral adjustment of ion type {ion} == mass of its composition adjustment'
+            if ion not in t[mt]:
+                checks.append((name, False, 'ion type in both tables', 'missing in the mass table', dict(ion=ion)))
+                continue
+            want = cmass(t['NEUTRAL_FRAGMENT_COMPOSITION_ADJUSTMENTS'][ion], at)
+            checks.append((name, abs(ex(t[mt][ion]) - want) <= F('1e-9'), float(want), t[mt][ion], dict(ion=ion)))
+    for name, ok, exp, obs, inp in checks:
+        out['obligations'] += 1
+        nm = f'part-tables#ground[{name}]'
+        if ok:
+            out['discharged'] += 1
+        else:
+            out['violations'].append(dict(obligation=nm, key=nm, finding_key=None, ground=True, clause=name, fn='tables', expected=exp,
+                                          observed=obs, input=inp, confirmed=True))
     return out
